@@ -147,5 +147,18 @@ func corpusScenarios() []*scenario {
 		b.add(a0, a1, b0, a2, s, a0, b0)
 		res = append(res, b.sc)
 	}
+	{
+		// 9: an Add that would remove a conflicting transaction but is refused as an oracle response
+		// (lower network fee than the pooled response) or for capacity: the conflicting one must stay.
+		b := newSB("refused-after-conflict-scan", 3)
+		x := b.tx(0, 100, []int{2}, nil, -1, false)
+		o1 := b.tx(0, 500, []int{3}, nil, 7, false)
+		n := b.tx(0, 300, []int{2}, []int{x}, 7, false) // beats x (300 > 100) but not the pooled response (300 < 500)
+		y := b.tx(0, 600, []int{4}, nil, -1, false)
+		l := b.tx(0, 50, []int{4, 2}, []int{unknownBase}, -1, false) // full pool, lowest priority: oom
+		b.bal(2, 0, 1000).bal(3, 0, 1000).bal(4, 0, 1000)
+		b.add(x, o1, n, y, l).verify(n).remove(o1).add(n)
+		res = append(res, b.sc)
+	}
 	return res
 }
